@@ -219,7 +219,9 @@ func ops16(h *hist16) []op16 {
 	if _, ok := h.col.C.(proto.Inferable); ok {
 		ops = append(ops, op16{"infer-own-type", func(h *hist16) error { return h.col.C.(proto.Inferable).Infer(h.col.C.Type()) }})
 	}
-	if strings.Contains(h.e.Label, "DateTime64(3)") && !strings.Contains(h.e.Label, "LowCardinality") {
+	if _, inferable := h.col.C.(proto.Inferable); inferable && strings.Contains(h.e.Label, "DateTime64(3)") && !strings.Contains(h.e.Label, "LowCardinality") {
+		// (only targets that can adopt parameters at all: Nullable / LowCardinality wrappers are not
+		// Inferable, and nothing in the properties asks them to adopt or refuse another precision)
 		// a block of a parameter-only sibling type (another precision) into the used column: it
 		// must end up exactly as a fresh column does after the same block (values read as the
 		// block's type, reported type); then back to the own type, empty
